@@ -168,6 +168,7 @@ func runC18(r *Run, verifDir string) {
 	c.x1ParserDomain()
 	c.x4BinaryReaderTotal()
 	c.x5TextVerbatim()
+	c.x6DelegatingEncoders()
 	c.x2WriterPanics()
 	c.l1Hex("C18.X3")
 	c.l2Base("C18.X3")
@@ -709,14 +710,57 @@ func boundedBy(v ssa.Value, at ssa.Instruction) (lo, hi *int64) {
 		var scan func(cond ssa.Value, outcome bool)
 		scan = func(cond ssa.Value, outcome bool) {
 			bo, ok := cond.(*ssa.BinOp)
-			if !ok || bo.X != v {
-				return
-			}
-			k, ok := constIntVal(bo.Y)
 			if !ok {
 				return
 			}
+			// round-trip test `T(U(v)) == v` (either side): true means v lies in U's range
+			if bo.Op == token.EQL || bo.Op == token.NEQ {
+				for _, pr := range [][2]ssa.Value{{bo.X, bo.Y}, {bo.Y, bo.X}} {
+					if pr[1] != v {
+						continue
+					}
+					if c1, ok := pr[0].(*ssa.Convert); ok {
+						if c2, ok := c1.X.(*ssa.Convert); ok && c2.X == v {
+							if w, uns, ok := intWidth(c2.Type()); ok && w < 63 && (bo.Op == token.EQL) == outcome {
+								l, h := -(int64(1) << (w - 1)), (int64(1)<<(w-1))-1
+								if uns {
+									l, h = 0, (int64(1)<<w)-1
+								}
+								if lo == nil || l > *lo {
+									lo = &l
+								}
+								if hi == nil || h < *hi {
+									hi = &h
+								}
+							}
+						}
+					}
+				}
+				return
+			}
 			op := bo.Op
+			x, y := bo.X, bo.Y
+			if _, isC := constIntVal(x); isC && y == v {
+				// constant on the left: mirror the comparison
+				x, y = y, x
+				switch op {
+				case token.LSS:
+					op = token.GTR
+				case token.LEQ:
+					op = token.GEQ
+				case token.GTR:
+					op = token.LSS
+				case token.GEQ:
+					op = token.LEQ
+				}
+			}
+			if x != v {
+				return
+			}
+			k, ok := constIntVal(y)
+			if !ok {
+				return
+			}
 			if !outcome {
 				switch op {
 				case token.LSS:
@@ -793,6 +837,9 @@ func (c *lexCtx) x1Ranges(rule string) {
 			if isNamed(cvX.Type(), "time", "Duration") {
 				return
 			}
+			if roundTripProbe(cv, cvX) {
+				return
+			}
 			key := c.key(fn, "narrow")
 			src := cvX
 			// origin: parse with a bit size
@@ -812,6 +859,10 @@ func (c *lexCtx) x1Ranges(rule string) {
 							return
 						}
 					}
+				}
+				if lo != nil && *lo >= 0 && hi != nil && *hi <= 4294967295 && (*lo > 0 || *hi < 4294967295) {
+					r.Bad(rule, key, cv.Pos(), "%s accepts [%d, %d] s for an interval whose range is [0, 4294967295]: a boundary value the writers emit (off by one in the bounds check) is rejected on reading", fnKey(fn), *lo, *hi)
+					return
 				}
 				if lo != nil && *lo >= 0 && hi != nil && *hi <= 4294967295 {
 					r.OK(rule, key, cv.Pos(), "interval seconds checked to lie in [%d, %d]", *lo, *hi)
@@ -841,8 +892,8 @@ func (c *lexCtx) x1Ranges(rule string) {
 				if unsignedDst {
 					fullLo, fullHi = 0, (int64(1)<<want)-1
 				}
-				if want < 63 && (*lo > fullLo || *hi < fullHi) && *lo <= fullLo+1 && *hi >= fullHi-1 {
-					r.Bad(rule, key, cv.Pos(), "%s accepts [%d, %d] for a %d-bit destination whose range is [%d, %d]: a boundary value the writers emit (off by one in the bounds check) is rejected on reading", fnKey(fn), *lo, *hi, want, fullLo, fullHi)
+				if want < 63 && (*lo > fullLo || *hi < fullHi) {
+					r.Bad(rule, key, cv.Pos(), "%s accepts [%d, %d] for a %d-bit destination whose range is [%d, %d]: a value the writers emit (a boundary value when the bounds check is off by one) is rejected on reading", fnKey(fn), *lo, *hi, want, fullLo, fullHi)
 					return
 				}
 				r.OK(rule, key, cv.Pos(), "bounds [%d, %d] checked before narrowing to %d bits", *lo, *hi, want)
@@ -1469,6 +1520,148 @@ func (c *lexCtx) x5TextVerbatim() {
 			r.Unk("C18.X5", key, fn.Pos(), "no success return found")
 		default:
 			r.OK("C18.X5", key, fn.Pos(), "%d success return(s): the string is the input's, untouched", n)
+		}
+	}
+}
+
+// roundTripProbe: the narrowing conversion cv of x only feeds `T(cv) ==/!= x` tests (the range-check idiom
+// `int64(int32(n)) != n`); it is a test, not a value the reader returns.
+func roundTripProbe(cv ssa.Value, x ssa.Value) bool {
+	refs := cv.Referrers()
+	if refs == nil || len(*refs) == 0 {
+		return false
+	}
+	for _, ref := range *refs {
+		back, ok := ref.(*ssa.Convert)
+		if !ok || !types.Identical(back.Type(), x.Type()) {
+			return false
+		}
+		br := back.Referrers()
+		if br == nil || len(*br) == 0 {
+			return false
+		}
+		for _, u := range *br {
+			bo, ok := u.(*ssa.BinOp)
+			if !ok || (bo.Op != token.EQL && bo.Op != token.NEQ) || (bo.X != x && bo.Y != x) {
+				return false
+			}
+		}
+	}
+	return true
+}
+
+// ---------------------------------------------------------------- X6
+
+// x6DelegatingEncoders: the reflective encoders that hand a value to its own TagEncodeTTLV skip it only when it
+// is a nil interface or a nil pointer. Any other skip (a nil slice or map, a zero value) drops an element the
+// decoder accepted and, for a mandatory field, produces a message the decoder rejects.
+func (c *lexCtx) x6DelegatingEncoders() {
+	r, p := c.r, c.p
+	r.Rule("C18.X6", "reflective encoders delegating to TagEncodeTTLV skip only nil interfaces and nil pointers", 2)
+	const kindInterface, kindPointer = 20, 22
+	for _, fn := range pkgFuncs(p, "ttlv") {
+		if fn.Parent() == nil || len(fn.Params) != 3 && len(fn.Params)+len(fn.FreeVars) < 3 {
+			continue
+		}
+		var emit []ssa.Instruction
+		allInstrs(fn, func(in ssa.Instruction) {
+			call, ok := in.(*ssa.Call)
+			if !ok || !call.Call.IsInvoke() || call.Call.Method.Name() != "TagEncodeTTLV" {
+				return
+			}
+			// receiver obtained from reflect.Value.Interface()
+			ta, ok := call.Call.Value.(*ssa.TypeAssert)
+			if !ok {
+				return
+			}
+			if src, ok := ta.X.(*ssa.Call); ok && callID(&src.Call).is("reflect", "Value", "Interface") {
+				emit = append(emit, in)
+			}
+		})
+		if len(emit) == 0 {
+			continue
+		}
+		key := fnKey(fn) + "/skip-only-nil"
+		paths, okP := enumeratePaths(fn, 512)
+		if !okP {
+			r.Unk("C18.X6", key, fn.Pos(), "too many paths")
+			continue
+		}
+		bad := ""
+		badPos := token.NoPos
+		for _, path := range paths {
+			through := false
+			for _, b := range path {
+				for _, in := range b.Instrs {
+					for _, e := range emit {
+						if in == e {
+							through = true
+						}
+					}
+				}
+			}
+			if through {
+				continue
+			}
+			// a skip path: the edges taken must include IsNil() == true and Kind() == Interface|Pointer only
+			nilEdge, kinds, other := false, []int64{}, ""
+			for i := 0; i+1 < len(path); i++ {
+				cond, isTrue, ok := edgeTaken(path[i], path[i+1])
+				if !ok {
+					continue
+				}
+				switch x := cond.(type) {
+				case *ssa.Call:
+					id := callID(&x.Call)
+					if id.is("reflect", "Value", "IsNil") {
+						if isTrue {
+							nilEdge = true
+						}
+						continue
+					}
+					if isTrue {
+						other = id.String()
+					}
+				case *ssa.BinOp:
+					var kc *ssa.Call
+					var k int64
+					okK := false
+					for _, pr := range [][2]ssa.Value{{x.X, x.Y}, {x.Y, x.X}} {
+						if cl, ok := pr[0].(*ssa.Call); ok && callID(&cl.Call).is("reflect", "Value", "Kind") {
+							if kk, ok := constIntVal(pr[1]); ok {
+								kc, k, okK = cl, kk, true
+							}
+						}
+					}
+					if kc == nil || !okK {
+						continue
+					}
+					if (x.Op == token.EQL) == isTrue {
+						kinds = append(kinds, k)
+					}
+				}
+			}
+			last := path[len(path)-1]
+			pos := last.Instrs[len(last.Instrs)-1].Pos()
+			switch {
+			case other != "":
+				bad, badPos = "skips the value when "+other+"() holds", pos
+			case !nilEdge:
+				bad, badPos = "returns without encoding on a path that does not test IsNil()", pos
+			case len(kinds) == 0:
+				bad, badPos = "skips every nil value whatever its kind", pos
+			default:
+				for _, k := range kinds {
+					if k != kindInterface && k != kindPointer {
+						bad, badPos = fmt.Sprintf("skips a nil value of reflect.Kind %d (only Interface=20 and Pointer=22 denote an absent optional element; a nil slice or map is a present, empty value)", k), pos
+					}
+				}
+			}
+		}
+		if bad != "" {
+			r.Bad("C18.X6", key, badPos, "%s %s: an accepted message with an empty structure in that position is re-encoded without the element and the result is rejected by the decoder when the field is mandatory", fnKey(fn), bad)
+		} else {
+			r.OK("C18.X6", key, fn.Pos(), "%d path(s); the value is skipped only as a nil interface or nil pointer", len(paths))
 		}
 	}
 }
